@@ -35,7 +35,7 @@ add("C07", "symbolic clean_vector() analysed as a structured string; real constr
 add("C08", "emitted structured strings re-parsed by the real constructor and run through an NFA of the official vectorString pattern carried symbolically; z3 decides acceptance on every path",
     "Every cleaned / RH vector the library can emit (all assignments) is solver-proved accepted by its own parser and by the official pattern; interactive builder output via C16's model.",
     COMMON_NOTE, "DESIGN.md section 6 C08")
-add("C09", "symbolic scores/severities/as_json; every reachable (score, rating) alternative checked against the official scale, offending alternatives must be proved unreachable by z3; band-edge reachability witnesses",
+add("C09", "symbolic scores/severities/as_json; every reachable (score, rating) alternative checked against the official scale, offending alternatives must be proved unreachable by z3; band-edge reachability witnesses; v4 additionally with the real scoring code inside a seeded sample of C02's macrovector forks (rating vs the score the same constructor reports)",
     "All reachable score alternatives of v2/v3 (real scoring) and all 101 scores for v4 (abstracted) are examined; a malformed score or wrong rating is a guard that z3 must prove unsatisfiable.",
     COMMON_NOTE, "DESIGN.md section 6 C09")
 add("C10", "as_json() executed symbolically for the four option combinations; JSON-Schema keywords evaluated over the symbolic dictionary (regex by NFA over the structured vectorString); z3 decides every part; known findings keyed per failing part",
@@ -63,8 +63,8 @@ add("C16", "ask_interactively executed symbolically (print logged, input() answe
 add("C17", "cvss_calculator.main() executed symbolically with an argparse recorder stub (flags = solver variables), print logged, interactive entry by summary; output of every (version selection, -v text, -j) case compared with the lines prescribed by the library API; z3 decides reachability of every print and exception",
     "All flag combinations x a finite list of -v texts x interactive outcomes: no exception escapes on any path (solver verdict); output equality per case with -a/-n universally quantified. The glue code is what the property is about; process-level behaviour only in replays.",
     COMMON_NOTE, "DESIGN.md section 6 C17")
-add("C19", "effect log of every store / ambient call / print with its path condition over constructors, accessors, from_rh_vector, the parse step from an arbitrary state and the extractor (z3 decides reachability); constructor re-executed under alternative decimal contexts and scores compared by z3",
-    "Decided: ambient decimal context (finite list of rounding modes x precisions) does not change any v2/v3 score for any assignment; no path stores into module-level or ambient state or prints. NOT explored: thread schedules and call histories - they follow from the frame condition by a written non-interference argument; hash seed only via logged hash-order-dependent iterations.",
+add("C19", "effect log of every store / ambient call / print with its path condition over constructors, accessors, from_rh_vector, the parse step from an arbitrary state and the extractor (z3 decides reachability); constructor re-executed under alternative decimal contexts and scores compared by z3 (v2/v3 all sessions; v4 with real scoring inside a seeded sample of macrovector forks)",
+    "Decided: ambient decimal context (finite list of rounding modes x precisions) does not change any v2/v3 score for any assignment, nor the v4 score in the sampled macrovector forks; no path stores into module-level or ambient state or prints. NOT explored: thread schedules and call histories - they follow from the frame condition by a written non-interference argument; hash seed only via logged hash-order-dependent iterations.",
     COMMON_NOTE, "DESIGN.md section 6 C19 and section 8")
 
 add("C14", "product execution (pair-valued leaves, two-sided control flow) of the real constructors per metric step; z3 decides the guard of every reachable (before, after) pair with after < before; v4: lookup-table lemma plus a seeded sample of product-execution forks",
